@@ -832,6 +832,7 @@ class MaterialIndexer(Indexer):
             phases = self._phases
             data.rows = [data_by_phase[i] for i in phases]
             self._set_cache()
+            self._data_cache.clear() # Cached mass and volumetric views wrap the old rows
             
     def mix_from(self, others):
         isa = isinstance
